@@ -6,22 +6,11 @@
     bullet (down to a point: observation O1 of DESIGN.md) with the run as an unmarked line next to it; the bullet is not shown as text and no other shape appears (C14, second
     clause; finite sweep with the bound in the statement, re-run whenever the tables are regenerated). *)
 Require Import SB.Model.Base SB.Model.Unicode SB.Model.Geom SB.Model.Fragment SB.Model.Merge SB.Model.Property
-  SB.Model.FragBuf SB.Model.Endorse SB.Theory.ArrowTheory SB.Theory.BoxDefs SB.Theory.ArrowSweep.
+  SB.Model.FragBuf SB.Model.Endorse SB.Theory.ArrowTheory SB.Theory.BoxDefs SB.Theory.ArrowDefs.
 
-Definition bullet_marker (ch : Z) : option marker :=
-  if ch =? 42 then Some MCircle else if ch =? 111 then Some MOpenCircle else if ch =? 79 then Some MBigOpenCircle else None.
 Definition bcases : list acase :=
   flat_map (fun '(dx, dy, lc) => map (fun b => AC dx dy lc b) [42; 111; 79])
            [(1, 0, 45); (-1, 0, 45); (0, 1, 124); (0, -1, 124); (1, 1, 92); (-1, -1, 92); (1, -1, 47); (-1, 1, 47)].
-Definition marker_eqb (a b : option marker) : bool :=
-  match a, b with
-  | Some MCircle, Some MCircle | Some MOpenCircle, Some MOpenCircle | Some MBigOpenCircle, Some MBigOpenCircle => true
-  | _, _ => false
-  end.
-Definition on_segment (a b p : point) : bool :=
-  (vcross (psub b a) (psub p a) =? 0) && (0 <=? dot (psub p a) (psub b a)) && (dot (psub p a) (psub b a) <=? dot (psub b a) (psub b a)).
-(** the bullet ends the run in reading order (it is to the right of, or below, the run) *)
-Definition forward (k : acase) : bool := (0 <? ady k) || ((ady k =? 0) && (0 <? adx k)).
 Definition bullet_chk (k : acase) (L : nat) : bool :=
   match endorse_cells (arrow_cells k L) with
   | Ok (m :: rest, []) =>
@@ -43,12 +32,13 @@ Definition bullet_chk (k : acase) (L : nat) : bool :=
       end
   | _ => false
   end.
-Lemma bullet_sweep_ok : forallb (fun k => forallb (fun L => bullet_chk k L) (seq 1 AMAX)) bcases = true.
+Definition BMAX := 40%nat.
+Lemma bullet_sweep_ok : forallb (fun k => forallb (fun L => bullet_chk k L) (seq 1 BMAX)) bcases = true.
 Proof. vm_cast_no_check (eq_refl true). Qed.
 
-Theorem bullet_recognised k L : In k bcases -> (1 <= L <= AMAX)%nat -> bullet_chk k L = true.
+Theorem bullet_recognised k L : In k bcases -> (1 <= L <= BMAX)%nat -> bullet_chk k L = true.
 Proof.
   intros Hk HL.
-  assert (IL : In L (seq 1 AMAX)) by (apply in_seq; unfold AMAX in *; lia).
+  assert (IL : In L (seq 1 BMAX)) by (apply in_seq; unfold BMAX in *; lia).
   exact (proj1 (forallb_forall _ _) (proj1 (forallb_forall _ _) bullet_sweep_ok k Hk) L IL).
 Qed.
